@@ -1450,6 +1450,36 @@ def sibling_key(rng, kd):
 
 
 _LENS = {}
+_LENS_HANGS = [0]
+
+
+class _Stuck(BaseException):
+    """raised by cpu_limit (a BaseException: `except Exception` inside the library lets it through)"""
+
+
+class cpu_limit:
+    """with cpu_limit(s): ... raises _Stuck once the block has burnt s CPU seconds (ITIMER_PROF; main thread only;
+    the timer and handler that were running -- the framework's generation watchdog -- are put back afterwards)"""
+
+    def __init__(self, seconds):
+        self.seconds = seconds
+
+    @staticmethod
+    def _raise(signum, frame):
+        raise _Stuck()
+
+    def __enter__(self):
+        import signal
+        self.handler = signal.signal(signal.SIGPROF, self._raise)
+        self.timer = signal.setitimer(signal.ITIMER_PROF, self.seconds, 1)
+
+    def __exit__(self, *a):
+        import signal
+        signal.setitimer(signal.ITIMER_PROF, 0)
+        signal.signal(signal.SIGPROF, self.handler)
+        if self.timer[0] > 0:
+            signal.setitimer(signal.ITIMER_PROF, *self.timer)
+        return False
 
 
 def key_lens(kd):
@@ -1459,10 +1489,16 @@ def key_lens(kd):
         def f():
             w = World({'arrays': []})
             return [int(a.size) for a in comps(invoke(kd, w))]
+        _stim()             # (imported outside the limited block: an interrupted import leaves a broken module behind)
+        World({'arrays': []})
         try:
-            _LENS[c] = pristine(f)
+            with cpu_limit(20 if _LENS_HANGS[0] < 3 else 0.3):
+                _LENS[c] = pristine(f)
         except Exception:  # noqa  (the call itself fails: the history that contains it reports that, with a replay)
             return []
+        except _Stuck:     # (the call never returns: likewise -- the history runs under a CPU limit of its own)
+            _LENS_HANGS[0] += 1
+            _LENS[c] = []
     return _LENS[c]
 
 
